@@ -40,11 +40,22 @@ def run(chk, repo):
     chk.attempt(chunk_key_agreement, chk, repo)
     from ..records import Layouts
     chk.rule("C01-R5", "metadata pass: chunk offsets advance by the bytes actually read, for every records_per_chunk (C06-Q5)", 4)
-    chk.attempt(metadata_offsets, chk, repo, Layouts(repo))
+    chk.attempt(trace_rpc, chk, repo)
+    chk.attempt(metadata_offsets, chk, repo, Layouts(repo), covered_by="trace_rpc")
     from .c01 import chunk_sizes_spec
     chk.rule("C01-R8", "metadata pass: the requests add up to the header's record count for every records_per_chunk (C06-Q6)", 2)
-    chk.attempt(chunk_sizes_spec, chk, repo)
+    chk.attempt(chunk_sizes_spec, chk, repo, covered_by="trace_rpc")
     chk.count("functions", len(op.reach))
+
+
+def trace_rpc(chk, repo):
+    """C06-Q7: what the metadata pass returns does not depend on records_per_chunk, only the requests do: on every model file
+    of the grid (records_per_chunk from 1 to far above the line count) the same absolute positions come back, the requests
+    follow the option (at most ceil(n/rpc), none larger than rpc records) and no buffer is sized by the option alone"""
+    from .trace_rules import intact_rules
+    intact_rules(chk, repo, "C06-Q7", ("descriptor", "sequential", "count", "size", "positions", "allocation"),
+                 "metadata pass on model files for every records_per_chunk of the grid: same records and positions; requests bounded by the option; no allocation that follows the option instead of the data",
+                 thorough=chk.tier == "thorough")
 
 
 def q2(chk, repo):
